@@ -184,6 +184,27 @@ impl MatrixId {
     }
 }
 
+/// Verification hooks: expose the crate-private text conversions to the external replay harness.
+#[cfg(ruma_verif)]
+#[doc(hidden)]
+impl MatrixId {
+    pub fn verif_parse_with_sigil(s: &str) -> Result<Self, Error> {
+        Self::parse_with_sigil(s)
+    }
+
+    pub fn verif_parse_with_type(s: &str) -> Result<Self, Error> {
+        Self::parse_with_type(s)
+    }
+
+    pub fn verif_to_string_with_sigil(&self) -> String {
+        self.to_string_with_sigil()
+    }
+
+    pub fn verif_to_string_with_type(&self) -> String {
+        self.to_string_with_type()
+    }
+}
+
 impl From<OwnedRoomId> for MatrixId {
     fn from(room_id: OwnedRoomId) -> Self {
         Self::Room(room_id)
